@@ -66,6 +66,23 @@ def cases(rng, tier):
                     c4 = "RR %s 0" % rr_wire(owner, code, cls, ttl, cut).hex()
                     INFO[c4] = ("rej", tname, "inner length overruns the RDATA")
                     out.append(c4)
+    # OPT (RFC 6891): fixed part in the RR header, options in the RDATA; the record may be followed by other bytes
+    for k in range(per):
+        vals = dns.gen_typed_vals(rng, "OPT", None)
+        rd = dns.enc_rdata_ref("OPT", vals)
+        ttl = (vals[1][1] << 16) | (rng.below(256) << 24)
+        wire = b"\x00" + (41).to_bytes(2, "big") + vals[0][1].to_bytes(2, "big") + ttl.to_bytes(4, "big") + len(rd).to_bytes(2, "big") + rd
+        trail = rng.bytes(rng.choice([0, 4, 9]))
+        c = "RR %s 0" % (wire + trail).hex()
+        INFO[c] = ("dec", "OPT", vals, [], 1, ttl, len(wire))
+        out.append(c)
+        if vals[2][1] and len(vals[2][1][-1][1]) >= 1:
+            # last option claims more data than the RDATA holds; the missing bytes are present after the record
+            cut = len(wire) - 1 - rng.below(len(vals[2][1][-1][1]))
+            bad = wire[:9] + (cut - 11).to_bytes(2, "big") + wire[11:cut] + rng.bytes(12)
+            c = "RR %s 0" % bad.hex()
+            INFO[c] = ("rej", "OPT", "option length overrunning the RDATA")
+            out.append(c)
     for path in sorted(glob.glob("/repo/simple-dns/samples/zonefile/*.sample")):
         d = open(path, "rb").read()
         c = "RR %s 0" % d.hex()
